@@ -138,6 +138,27 @@ class Storm:
                     self.bad("storm:loser-not-gated", "%s: loser %d got %s to ISON" % (what, i, [m.raw for m in got][:2]))
             except (wire.Closed, wire.Timeout):
                 pass
+        # a refused claimant is an ordinary unregistered connection: half of the losers try again under a free
+        # nickname on the same connection and must be welcomed (as in the serial order "433, then another nick")
+        retried = []
+        for i in refused:
+            c = cs[i]
+            if c.eof or i % 2:
+                continue
+            alt = "%sr%d" % (nick, i)
+            try:
+                c.send("NICK " + alt)
+                got = c.read_until(lambda m: m.verb in ("001", "433", "464") or m.verb.startswith("ERROR"), 8.0)
+                if got[-1].verb != "001":
+                    self.bad("storm:loser-cannot-register", "%s: loser %d, refused with 433, then sent NICK %s and got %s"
+                             % (what, i, alt, got[-1].raw))
+                else:
+                    retried.append(alt)
+            except wire.Closed as ex:
+                self.bad("storm:loser-cannot-register", "%s: loser %d, refused with 433, sent NICK %s: connection closed "
+                         "by the server (%s)" % (what, i, alt, ex.kind))
+            except wire.Timeout:
+                self.bad("storm:loser-cannot-register", "%s: loser %d, refused with 433, sent NICK %s: no answer" % (what, i, alt))
         for i, c in enumerate(cs):
             if i not in welcomed:
                 c.close()
@@ -170,7 +191,7 @@ class Storm:
             c.ping("j2")
             c.read_available(0.0)
         nick = self.uid("y")
-        gated = self.r.random() < 0.5
+        gated = self.r.random() < 0.7
         if gated:
             fire([gatec] + cs, [b"OPER root rootpw\r\n"] + [b"NICK %s\r\n" % nick.encode() for _ in cs])
         else:
